@@ -147,6 +147,12 @@ pub fn verif_reseed(seed: u64) {
     REPEATABLE_RNG.with(|t| *t.borrow_mut() = SmallRng::seed_from_u64(seed));
 }
 
+/// Verification hook: resets randomized (non-repeatable) random generator of the current thread to given seed.
+#[cfg(reinterpretcat_vrp_verif)]
+pub fn verif_reseed_randomized(seed: u64) {
+    RANDOMIZED_RNG.with(|t| *t.borrow_mut() = SmallRng::seed_from_u64(seed));
+}
+
 /// Provides underlying random generator API.
 #[derive(Clone, Debug)]
 pub struct RandomGen {
